@@ -235,6 +235,13 @@ impl Model {
         self.worlds = vec![w];
     }
 
+    /// Excludes a key from all further assertions (after a recorded known finding on it).
+    pub fn poison(&mut self, key: &[u8]) {
+        for w in &mut self.worlds {
+            w.taint.insert(key.to_vec(), u64::MAX);
+        }
+    }
+
     /// Drops worlds no live snapshot can observe any more (keeps memory bounded).
     pub fn prune(&mut self, min_live_snapshot: Option<u64>) {
         // The world used by the oldest live snapshot and everything newer must stay.
